@@ -209,7 +209,16 @@ def core_from_ir(circ):
             # a call is bound to a macro only if the circuit it belongs to has a macro of that name
             if isinstance(s.gate_def, Macro) and s.name not in circ.macros:
                 raise OracleError("statement %s is bound to a macro, but the circuit has no macro %s" % (s.name, s.name))
-            return ("gate", s.name, tuple(arg(a, names) for a in s.parameters.values()))
+            # a statement maps parameter NAMES to values: read in the order of the definition's parameters, whatever the
+            # order of the dictionary (a statement made by hand may list them differently)
+            vals = list(s.parameters.values())
+            try:
+                decl = [p.name for p in s.gate_def.parameters]
+                if len(decl) == len(s.parameters) and set(decl) == set(s.parameters):
+                    vals = [s.parameters[n] for n in decl]
+            except Exception:
+                pass
+            return ("gate", s.name, tuple(arg(a, names) for a in vals))
         if isinstance(s, LoopStatement):
             return ("loop", val(s.iterations), stmt(s.statements))
         if isinstance(s, BlockStatement):
